@@ -311,6 +311,28 @@ func dependsOnX(w *World, v ssa.Value, pred func(ssa.Value) bool, ctl bool) bool
 				}
 			}
 			return walk(x.X)
+		case *ssa.Alloc:
+			// a composite literal: the values stored into its fields / the variable
+			found := false
+			if refs := x.Referrers(); refs != nil {
+				for _, rf := range *refs {
+					switch y := rf.(type) {
+					case *ssa.FieldAddr:
+						if fr := y.Referrers(); fr != nil {
+							for _, u := range *fr {
+								if st, ok := u.(*ssa.Store); ok && st.Addr == ssa.Value(y) && walk(st.Val) {
+									found = true
+								}
+							}
+						}
+					case *ssa.Store:
+						if y.Addr == ssa.Value(x) && walk(y.Val) {
+							found = true
+						}
+					}
+				}
+			}
+			return found
 		case *ssa.Slice:
 			// slice of a literal backing array (variadic arguments, composite literals)
 			if a, ok := x.X.(*ssa.Alloc); ok {
